@@ -4,6 +4,7 @@ import VsbModel.Lemmas.RestoreSingle
 import VsbModel.Lemmas.PathRoundTrip
 import VsbModel.Lemmas.PlanFacts
 import VsbModel.Lemmas.GeneralCheck
+import VsbModel.Lemmas.LogicalRun
 set_option linter.unusedSimpArgs false
 set_option linter.unusedSectionVars false
 
@@ -212,5 +213,108 @@ example :
       exact ⟨.file "d/a" {} [1, 2, 3], by simp [b1], by simp [isOwnE, b1], rfl⟩
     · simp [isExtE, b1] at hext
     · cases hext
+
+
+/-! ### Histories -/
+
+open Vsb.Dedup in
+/-- **history_restore_exact — C01 as stated.**  Start from an empty storage and apply any history of operations:
+`vsb backup` runs on arbitrary trees (each appending to the newest group or opening a new one — any rotation policy —
+with any subset of the earlier manifests of the group unreadable during the run) and deletions of arbitrary whole
+groups.  Assume of each run what the property assumes (`OpSoundL`): the walk delivers a well-formed tree, and a file
+whose (device, inode, mtime) equal those recorded for its path in the group's previous backup has the recorded
+content.  Then for every group `g` of the resulting storage and every backup `lt = g[t]` in it, restoring that backup
+from what is stored (`render` of each backup of the group) exits 0 and yields exactly the tree that run read —
+every path, kind, byte, link target, mode, owner, mtime.  The deduplication decisions are those of the model of
+`BackupInstance` (M5, tied to the code by C02/C09), the restore is the model of `RestorePlan`/`Restorer` (M8, tied by
+C01/C11). -/
+theorem history_restore_exact {F : Type} [DecidableEq F] (hashOf : List β → H) (hinj : ∀ x y, hashOf x = hashOf y → x = y)
+    (ops : List (LOp β F))
+    (hs : ∀ (pre : List (LOp β F)) (op : LOp β F) (post : List (LOp β F)), ops = pre ++ op :: post →
+        OpSoundL hashOf (pre.foldl (stepL hashOf) []) op) :
+    ∀ g ∈ ops.foldl (stepL hashOf) ([] : LStore β F), ∀ (t : Nat) (lt : LBackupF β F), g[t]? = some lt →
+      ∃ fs, restore hashOf (g.map (fun b => render hashOf b.lb)) t = .done fs true ∧
+        ∀ q, fsGet fs q = fsGet (fsOf lt.lb.es) q := by
+  intro g hg t lt hlt
+  have hinv := history_inv hashOf ops [] (by intro g hg; cases hg) hs g hg
+  have hmap : g.map (fun b => render hashOf b.lb) = (g.map (·.lb)).map (render hashOf) := by simp
+  rw [hmap]
+  have hlt' : (g.map (·.lb))[t]? = some lt.lb := by rw [List.getElem?_map, hlt]; rfl
+  apply restore_exact hashOf hinj (g.map (·.lb)) _ (fun j lb h => by rw [List.getElem?_map, h]; rfl) t lt.lb hlt'
+  · intro j lb _ hj
+    rw [List.getElem?_map] at hj
+    cases hgj : g[j]? with
+    | none => rw [hgj] at hj; cases hj
+    | some b =>
+      rw [hgj] at hj
+      simp only [Option.map_some, Option.some.injEq] at hj
+      subst hj
+      exact hinv.1 b (List.mem_of_getElem? hgj)
+  · exact resolvableL_of_resolvable hashOf hinj g hinv.2 t lt hlt
+
+
+/-! Non-vacuity of `history_restore_exact`: a history of two runs in one group — the second finds `d/a` unchanged
+(same fingerprint: recorded hash reused), `d/c` with content already stored under another path, an empty file and a
+new file — meets `OpSoundL` at every step. -/
+section HistoryExample
+open Vsb.Dedup
+
+def exEs0 : List (Entry Nat) := [.dir "d" {}, .file "d/a" {} [1, 2], .file "d/b" {} [3]]
+def exEs1 : List (Entry Nat) := [.dir "d" {}, .file "d/a" {} [1, 2], .file "d/c" {} [3], .file "d/e" {} [], .file "d/n" {} [9, 9]]
+def exFp0 : String → Nat := fun _ => 1
+def exFp1 : String → Nat := fun p => if p == "d/a" then 1 else 2
+def exOps : List (LOp Nat Nat) := [.run "b0" exEs0 exFp0 [] true, .run "b1" exEs1 exFp1 [true] false]
+
+
+theorem exSound0 : RunSound (id : List Nat → List Nat) ([] : List (LBackupF Nat Nat)) [] exEs0 exFp0 := by
+  refine ⟨wfCheck_sound _ (by decide), ?_⟩
+  intro p m d _ l r hl
+  simp [view, loadLast] at hl
+
+theorem exLast1 : loadLast (view ([runL (id : List Nat → List Nat) [] [] "b0" exEs0 exFp0].map (recsD id)) [true]) =
+    some [⟨true, [1, 2], 1, 2, "/d/a"⟩, ⟨true, [3], 1, 1, "/d/b"⟩] := by decide
+
+theorem exSound1 : RunSound (id : List Nat → List Nat) [runL id [] [] "b0" exEs0 exFp0] [true] exEs1 exFp1 := by
+  refine ⟨wfCheck_sound _ (by decide), ?_⟩
+  intro p m d hin l r hl hr hfp
+  rw [exLast1] at hl
+  cases hl
+  simp only [exEs1, List.mem_cons, List.mem_nil_iff, or_false] at hin
+  rcases hin with h | h | h | h | h
+  · cases h
+  · cases h
+    have : lookupLast [(⟨true, [1, 2], 1, 2, "/d/a"⟩ : Rec (List Nat) Nat String), ⟨true, [3], 1, 1, "/d/b"⟩] (keyE (Entry.file "d/a" {} [1, 2] : Entry Nat)) = some ⟨true, [1, 2], 1, 2, "/d/a"⟩ := by decide
+    rw [this] at hr
+    cases hr
+    exact ⟨rfl, rfl⟩
+  all_goals
+    cases h
+    revert hr
+    first
+      | (have : lookupLast [(⟨true, [1, 2], 1, 2, "/d/a"⟩ : Rec (List Nat) Nat String), ⟨true, [3], 1, 1, "/d/b"⟩] (keyE (Entry.file "d/c" {} [3] : Entry Nat)) = none := by decide
+         rw [this]; intro hr; cases hr)
+      | (have : lookupLast [(⟨true, [1, 2], 1, 2, "/d/a"⟩ : Rec (List Nat) Nat String), ⟨true, [3], 1, 1, "/d/b"⟩] (keyE (Entry.file "d/e" {} [] : Entry Nat)) = none := by decide
+         rw [this]; intro hr; cases hr)
+      | (have : lookupLast [(⟨true, [1, 2], 1, 2, "/d/a"⟩ : Rec (List Nat) Nat String), ⟨true, [3], 1, 1, "/d/b"⟩] (keyE (Entry.file "d/n" {} [9, 9] : Entry Nat)) = none := by decide
+         rw [this]; intro hr; cases hr)
+
+example : ∀ (pre : List (LOp Nat Nat)) (op : LOp Nat Nat) (post : List (LOp Nat Nat)), exOps = pre ++ op :: post →
+    OpSoundL (id : List Nat → List Nat) (pre.foldl (stepL id) []) op := by
+  intro pre op post h
+  match pre, h with
+  | [], h =>
+    simp only [exOps, List.nil_append, List.cons.injEq] at h
+    obtain ⟨rfl, _⟩ := h
+    exact exSound0
+  | [a], h =>
+    simp only [exOps, List.cons_append, List.nil_append, List.cons.injEq] at h
+    obtain ⟨rfl, rfl, _⟩ := h
+    exact exSound1
+  | a :: b :: c, h =>
+    simp only [exOps, List.cons_append, List.cons.injEq] at h
+    obtain ⟨_, _, h3⟩ := h
+    cases c <;> simp at h3
+
+end HistoryExample
 
 end Vsb.Restore
